@@ -74,5 +74,11 @@ class LargeCommunity(Attribute):
                     data=value
                 )
 
+        if not large_community_hex or len(large_community_hex) % 12:
+            # RFC 8092: the length is a non-zero multiple of 12
+            raise excep.UpdateMessageError(
+                sub_error=bgp_cons.ERR_MSG_UPDATE_ATTR_LEN,
+                data=value
+            )
         return struct.pack('!B', cls.FLAG) + struct.pack('!B', cls.ID) \
             + struct.pack('!B', len(large_community_hex)) + large_community_hex
